@@ -679,6 +679,7 @@ func Run(tier string) {
 	run.Sample(map[string]interface{}{"cmd": cases[len(cases)/2].Cmd, "model": map[string]interface{}{"exit0": cases[len(cases)/2].Exit0, "out": cases[len(cases)/2].Out}})
 	everyOffset(run, ks, ageBin, root)
 	keygen(run, filepath.Join(bin, "age-keygen"), root)
+	identityFiles(run, ageBin, root)
 	run.Finish()
 }
 
